@@ -297,7 +297,7 @@ def _g_fftunit(rep):
     rep.floor("R-C02-fft", 4)
     rep.floor("R-C10-scratch", 5)
     rep.floor("R-C07-gcd", 11)
-    rep.floor("R-C07-exact", 4)
+    rep.floor("R-C07-exact", 3)
     rep.floor("R-C04-fft-formulas", 3)
     rep.clause("FFT unit and block sizes", "overlap-add structure, cleared padding, exact block-size ratio and request formulas of the three FFT types (shared with C01 / C02 / C07 / C04)")
 
